@@ -41,10 +41,10 @@ Theorem pass2_preserves g root g' : Inv g -> pass2 g root = Some g' ->
   forall s x b, sg_alive g' x = true -> GV g s x b -> GV g' s x b.
 Proof. intros HI H. exact (sh_val _ _ (proj2 (pass2_shrink g root g' HI H))). Qed.
 
-Theorem pass3_preserves st root st' : tables_ok st -> pass3 true (fun l => l) st root = Some st' ->
+Theorem pass3_preserves st root st' : tables_ok nonzero false st -> pass3 true (fun l => l) st root = Some st' ->
   forall s x b, GV (ls_g st) s x b -> GV (ls_g st') s x b.
 Proof.
-  intros Hok H. apply (gr_val _ _ (proj2 (pass3_grow true (fun l => l) (fun l f Hf => Hf) st root st' Hok H))).
+  intros Hok H. apply (gr_val _ _ (proj2 (pass3_grow true (fun l => l) (fun l f Hf => Hf) (fun l H => H) nonzero_opp st root st' Hok H))).
 Qed.
 
 (* "every d4_ok file loads to a WF vector with the right count" is false for the loader as it is:
